@@ -173,6 +173,40 @@ pub fn run(ctx: &Ctx) -> Coverage {
         let out = product_cfg(&format!("gen{i}"), &spec, &bnf, &f, &vocab, depth, max_states);
         absorb(ctx, &spec, out);
     });
+    // two repetition expressions over the same named rule (cooperating sites: shared caches)
+    let reps: Vec<gen::G> = {
+        let r = || Box::new(gen::G::Ref(1));
+        let mut v = vec![];
+        for (m, n) in [(0u32, 1u32), (0, 2), (1, 1), (1, 2), (2, 2), (0, 3), (1, 3), (2, 3), (3, 3)] {
+            v.push(gen::G::Rep(r(), m, n));
+        }
+        v.push(gen::G::Star(r()));
+        v.push(gen::G::Plus(r()));
+        v.push(gen::G::Opt(r()));
+        v.push(gen::G::Seq(Box::new(gen::G::Rep(r(), 2, 2)), Box::new(gen::G::Star(r()))));
+        v
+    };
+    let mut pairs: Vec<gen::Gram> = vec![];
+    for a in reps.iter() {
+        for b in reps.iter() {
+            for body in [gen::G::Lit(b"bc".to_vec()), gen::G::Class(b"de".to_vec())] {
+                let start = gen::G::Seq(Box::new(gen::G::Seq(Box::new(a.clone()), Box::new(gen::G::Lit(b"a".to_vec())))), Box::new(b.clone()));
+                pairs.push(gen::Gram { rules: vec![start, body] });
+            }
+        }
+    }
+    ctx.count("repetition_pair_grammars", pairs.len() as u64);
+    pairs.par_iter().enumerate().for_each(|(i, g)| {
+        if ctx.over_budget() {
+            ctx.count("jobs_skipped_budget", 1);
+            return;
+        }
+        let f = Factory::new(&vocab, &Slices::None).unwrap();
+        let spec = GrammarSpec::Lark(g.lark());
+        let bnf = Bnf::from_gram(g);
+        let out = product_cfg(&format!("reppair{i}"), &spec, &bnf, &f, &vocab, ctx.tier.pick(12, 16), max_states);
+        absorb(ctx, &spec, out);
+    });
     // parametric grammars
     let pg = parametric_grammars();
     let pvocab = c05_vocab(b"abcdex", &["ab", "ba", "aa", "abc", "cd", "bb", "ca"]);
